@@ -104,7 +104,7 @@ func GenConfig(r *PRNG, profile string) *Config {
 		"replicas": 4, "slots": 3, "scalein": 4, "scaleout": 3, "template": 4, "partition": 2, "strategy": 1, "pause": 1,
 		"touch": 2, "histlimit": 1, "slotadd": 1, "resubmit": 1, "prel": 4,
 		"podrm": 2, "podlabel": 1, "podorphan": 1, "mkpod": 2, "delset": 0, "mkset": 1, "mkrev": 0,
-		"pvcterm": 1,
+		"pvcterm": 1, "deliverb": 8,
 	}
 	// swarm: switch off a random subset of step kinds
 	for _, k := range sortedKeys(c.Weights) {
@@ -201,7 +201,7 @@ func (s *Sim) Gen(r *PRNG) Step {
 			add(k, qlen > 0)
 		case "release":
 			add(k, parked)
-		case "deliver", "deliverall":
+		case "deliver", "deliverall", "deliverb":
 			add(k, lag)
 		case "kube", "podrm", "podlabel", "podorphan", "podown":
 			add(k, pods)
@@ -235,11 +235,22 @@ func (s *Sim) Gen(r *PRNG) Step {
 		pct := s.Cfg.FaultPct
 		if k == "release" && pct > 0 {
 			// bias: writes whose failure leaves the most in-flight state (status
-			// writes, pod deletes, revision writes) get faults three times as often
+			// writes, pod deletes, revision writes) and the uncached read that guards
+			// adoptions get faults three times as often
 			if ws := s.ParkedWorkers(); len(ws) > 0 {
 				c := ws[st.A%len(ws)].pending
-				if c.Sub == "status" || (c.Kind == KPod && c.Verb == "delete") || (c.Kind == KRev && c.IsWrite()) {
+				if c.Sub == "status" || (c.Kind == KPod && c.Verb == "delete") || (c.Kind == KRev && c.IsWrite()) || (c.Kind == KSet && c.Verb == "get") {
 					pct *= 3
+				}
+			}
+		}
+		if s.Cfg.Profile == "rollfail" && k == "release" {
+			// the scenario is about the pod writes of the replacing reconcile: faults
+			// concentrate there, the reads around them mostly succeed
+			pct = 4
+			if ws := s.ParkedWorkers(); len(ws) > 0 {
+				if c := ws[st.A%len(ws)].pending; c.Kind == KPod && c.IsWrite() {
+					pct = 55
 				}
 			}
 		}
@@ -255,15 +266,18 @@ func (s *Sim) Gen(r *PRNG) Step {
 		}
 	case "advance":
 		st.A = []int{1, 10, 100, 1000, 10000, 1000000}[r.Intn(6)]
-		if s.Cfg.Profile == "streak" {
+		if s.Cfg.Profile == "streak" || s.Cfg.Profile == "statusstreak" {
 			st.A = []int{1000, 100000, 1000000}[r.Intn(3)]
 		}
 	case "crash":
 		st.A = r.Intn(2)
-	case "deliver", "relist", "resync":
+	case "deliver", "relist", "resync", "deliverb":
 		st.A = r.Intn(3)
 		if r.Chance(0.5) {
 			st.A = 0 // pods are the busiest kind
+		}
+		if k == "deliverb" {
+			st.B = r.Intn(3)
 		}
 	case "kube":
 		st.A = r.Intn(16)
@@ -349,7 +363,7 @@ func (s *Sim) Gen(r *PRNG) Step {
 			st.S = sprintf("%s-4294967296", s.Cfg.Sets[st.A].Name)
 			st.D = r.Intn(4)
 		}
-		if (s.Cfg.Profile == "ownership" || s.Cfg.Profile == "claimsrepair" || s.Cfg.Profile == "lying") && r.Chance(0.25) {
+		if (s.Cfg.Profile == "ownership" || s.Cfg.Profile == "claimsrepair" || s.Cfg.Profile == "lying" || s.Cfg.Profile == "ordered" || s.Cfg.Profile == "faults" || s.Cfg.Profile == "claims" || s.Cfg.Profile == "rollfault" || s.Cfg.Profile == "statusfault") && r.Chance(0.3) {
 			st.C = st.C&^3 | []int{ownNone, ownThis}[r.Intn(2)] | 1<<12
 			st.C = st.C&^(7<<2) | 3<<2
 		}
